@@ -104,13 +104,21 @@ def run(chk: Check):
         if i % 5 == 2 and scn.conv is not None:
             # a nearly exhausted space: the samplers keep proposing the same few vectors (the history is full of repeated parameter vectors),
             # most of them with a loss that does not round to zero, one or two with a loss that does
-            vals = [0.0, 0.5, 1.0, 1.5, 2.0]
+            vals = [0.0, 0.5, 1.0, 1.5, 2.0] if scn.dims == 1 else [0.0, 1.0]
             scn.lineup = [(c, bs, [[[rng.choice(vals) for _ in range(scn.dims)] for _ in range(bs)] for _ in script], cs) for (c, bs, script, cs) in scn.lineup]
             h = 0.5 * 10.0 ** (-scn.conv)
             thetas = sorted({tuple(r) for (_, _, script, _) in scn.lineup for call in script for r in call})
             scn.loss_table = {th: rng.choice([1.0, 3.0, 0.7, 2.0 * h + 1.0]) for th in thetas}
-            for th in rng.sample(thetas, min(len(thetas), rng.randint(1, 2))):
-                scn.loss_table[th] = rng.choice([0.0, h / 3, -h / 3, 0.4 * 10.0 ** (-scn.conv)])
+            if i % 10 == 2 and len(thetas) >= 2:
+                # the vector whose loss rounds to zero is proposed late: in no sampler's first two calls, i.e. after the history already holds
+                # more rows than there are distinct vectors
+                late, other = thetas[-1], thetas[0]
+                scn.lineup = [(c, bs, [[(list(other) if (ci < 2 and tuple(r) == late) else r) for r in call] for ci, call in enumerate(script)], cs) for (c, bs, script, cs) in scn.lineup]
+                scn.loss_table[late] = rng.choice([0.0, h / 3, -h / 3])
+                chk.count("history_with_repeated_vectors:zero_loss_late")
+            else:
+                for th in rng.sample(thetas, min(len(thetas), rng.randint(1, 2))):
+                    scn.loss_table[th] = rng.choice([0.0, h / 3, -h / 3, 0.4 * 10.0 ** (-scn.conv)])
             chk.count("history_with_repeated_vectors")
         if scn.folder and rng.random() < 0.6:
             scn.ops = [o for o in scn.ops if o[0] == "C"][:3]
